@@ -236,6 +236,11 @@ def run(ctx):
 
     version_change_rules(ctx, "R-C06.6")
 
+    # ---- cross-cutting disciplines (rules/discipline.py)
+    from .. import discipline as D
+    # a commit's batch contains, and applies, every item
+    D.loops_visit_all(ctx, "R-C06.10", only=("tx::write_tx::BaseTransaction::commit", "batch::WriteBatch::commit"))
+
     # ---- borrowed obligations (mechanisms owned by other properties that this property's verdict also rests on)
     # a transaction's batch contains every keyspace's final writes (the dedupe never drops another keyspace's item)
     ctx.borrow("C08", ["R-C08.4"], "R-C06.7")
